@@ -41,7 +41,8 @@ STUB = ['event loop + clock', 'TCP sockets/listener', 'DNS', 'executor',
         'OS randomness', 'hostile peer = puppet over asyncssh transport']
 PROBES = ['reader_paused', 'window_zero_seen', 'attack_paused',
           'attack_reading', 'attack_stream_victim', 'attack_single_big',
-          'attack_multi', 'adjust_seen', 'victim_protocol_error']
+          'attack_multi', 'adjust_seen', 'victim_protocol_error',
+          'attack_victim_closes']
 
 valid_plan_base = chanload.valid_plan
 
@@ -117,6 +118,12 @@ def gen_plan(rng):
 
         if rng.chance(25):
             out.insert(rng.below(len(out) + 1), ['resume'])
+
+        if rng.chance(20):
+            # the victim closes its channel in the middle of it (what it had
+            # buffered is discarded): the window it advertised stays what it
+            # was
+            out.insert(rng.below(len(out) + 1), ['close'])
 
         plan['attack'] = {
             'hostile': hostile, 'chan': i,
@@ -225,6 +232,9 @@ def run_plan(plan, sched_seed=None, sched_replay=None):
                     state['attack_sent'] += 1
                 elif p[0] == 'a':
                     hconn.send_packet(93, u32(send_chan), u32(p[1]))
+                elif p[0] == 'close':
+                    sim.probes['attack_victim_closes'] += 1
+                    vchan.close()
                 elif p[0] == 'resume':
                     if vreader == 'cb':
                         vchan.resume_reading()
